@@ -812,7 +812,7 @@ def check(rep: Report, tier: str, seed: int) -> None:
                           + json.dumps({k: v for k, v in _ser(case).items() if not k.startswith(("a_", "v_"))}))
     rep.extra["correspondence_disagreements"] = dis
     extra.merge()
-    if rep.broken and not rep.failing:
+    if rep.broken and not rep.unknown_failing():
         search(rep, seed, 1500 if tier == "quick" else 20000, tier)
 
 
